@@ -169,11 +169,12 @@ def parse_format(fmt):
         if c == ord("{"):
             j = fmt.index(ord("}"), i)
             spec = "".join(chr(x) for x in fmt[i + 1:j])
-            if spec not in ("", ":x", ":02x", ":04x"):
+            named = re.fullmatch(r"[a-z_][a-z0-9_]*", spec) is not None      # `{x}`: the variable x, displayed
+            if spec not in ("", ":x", ":02x", ":04x") and not named:
                 raise Unsupported("format specification {%s}" % spec)
             if cur:
                 pieces.append(("lit", cur)); cur = []
-            pieces.append(("arg", spec.lstrip(":")))
+            pieces.append(("named", spec) if named else ("arg", spec.lstrip(":")))
             i = j + 1; continue
         if c == ord("}"):
             raise Unsupported("unbalanced } in a format string")
@@ -753,6 +754,22 @@ class Parser:
                 args.append(self.expr())
             self.expect(close)
             return ("write", target, str_value(tk[1]), args)
+        if name == "writeln":                                   # write! with a newline appended to the format string
+            target = self.expr()
+            if self.at(close):
+                self.expect(close)
+                return ("write", target, [10], [])
+            self.expect(",")
+            tk = self.next()
+            if tk[0] != "str":
+                raise Unsupported("writeln! without a literal format string")
+            args = []
+            while self.accept(","):
+                if self.at(close):
+                    break
+                args.append(self.expr())
+            self.expect(close)
+            return ("write", target, str_value(tk[1]) + [10], args)
         if name == "format":
             tk = self.next()
             if tk[0] != "str":
@@ -1537,6 +1554,8 @@ class FnTranslator:
             t0 = tl or th
             if (t0 is None or is_nat(t0)) and (tl is None or th is None or same_type(tl, th)):
                 return T("slice", T("usize"))          # lo..hi over usize, iterated: the list lo, lo+1, .., hi-1
+            if t0 is not None and t0[0] == "ty" and t0[1] == "u32" and (tl is None or th is None or same_type(tl, th)):
+                return T("slice", T("u32"))            # the same over u32 (values of N)
             return None
         if k == "write":
             return T("Result", UNIT, UNIT)
@@ -1845,6 +1864,12 @@ class FnTranslator:
         if k == "strlit":
             return "[" + "; ".join("%d" % c for c in str_value(e[1])) + "]"
         if k == "range" and e[1] is not None and e[2] is not None and self.ty_of(e, env) is not None:
+            if self.ty_of(e, env)[2][0][1] == "u32":
+                lo = self.pure(e[1], env, T("u32"))
+                hi = self.pure(e[2], env, T("u32"))
+                if lo is None or hi is None:
+                    return None
+                return "(map N.of_nat (seq (N.to_nat %s) (%sN.to_nat %s - N.to_nat %s)))" % (lo, "1 + " if e[3] else "", hi, lo)
             lo = self.pure(e[1], env, T("usize"))
             hi = self.pure(e[2], env, T("usize"))
             if lo is None or hi is None:
@@ -1856,9 +1881,12 @@ class FnTranslator:
                 if kind_ == "lit":
                     parts.append("[" + "; ".join("%d" % c for c in v) + "]")
                     continue
-                if not args:
+                if kind_ == "named":
+                    a, v = ("path", [v]), ""
+                elif not args:
                     raise Unsupported("format!: more placeholders than arguments")
-                a = args.pop(0)
+                else:
+                    a = args.pop(0)
                 at = self.ty_of(a, env)
                 av = self.pure(a, env)
                 if av is None:
@@ -1868,6 +1896,8 @@ class FnTranslator:
                         parts.append("[%s]" % av)
                     elif is_str(at):
                         parts.append(av)
+                    elif at is not None and at[0] == "ty" and at[1] == "u32":
+                        parts.append("(i32_to_string (Z.of_N %s))" % av)       # decimal digits (no sign: the value is >= 0)
                     else:
                         raise Unsupported("format!: {} at type %s" % (at,))
                 else:
@@ -2727,6 +2757,10 @@ class FnTranslator:
             els = e[4] if e[4] is not None else ("block", [], None)
             return self.tr(("match", e[2], [(e[1], None, e[3]), (("pwild",), None, els)]), env, k, want)
         if kind == "range" and e[1] is not None and e[2] is not None and self.ty_of(e, env) is not None:
+            if self.ty_of(e, env)[2][0][1] == "u32":
+                return self.tr(e[1], env, lambda lo: self.tr(e[2], env, lambda hi: k(
+                    "(map N.of_nat (seq (N.to_nat %s) (%sN.to_nat %s - N.to_nat %s)))" % (lo, "1 + " if e[3] else "", hi, lo)),
+                    T("u32")), T("u32"))
             return self.tr(e[1], env, lambda lo: self.tr(e[2], env, lambda hi: k(
                 "(seq %s (%s%s - %s))" % (lo, "1 + " if e[3] else "", hi, lo)), T("usize")), T("usize"))
         if kind in ("range", "strlit"):
@@ -3567,7 +3601,8 @@ MODULES = {
         "functions": [("BasePartition", None, f) for f in ("new", "num_blocks", "index", "size", "block_size", "smaller_block",
                                                             "pick_element", "slice", "add_block", "split_block", "block_elements")]
                      + [("Partition", None, f) for f in ("new", "num_blocks", "index", "size", "block_size", "smaller_block",
-                                                         "pick_element", "block_id", "block_elements")],
+                                                         "pick_element", "block_id", "block_elements")]
+                     + [("BasePartition", "Display", "fmt")],      # (Partition::fmt forwards an in-out Formatter through a field method: not translated)
     },
     "PartitionGen": {
         "files": ["character_sets.rs", "smt_strings.rs", "errors.rs"],
